@@ -329,3 +329,65 @@ Proof.
   unfold Phi. rewrite <- (RInt_Chasles pdf 0 a b) by apply pdf_ex_RInt.
   change (plus (RInt pdf 0 a) (RInt pdf a b)) with (RInt pdf 0 a + RInt pdf a b). lra.
 Qed.
+
+(* ------------------------------------------------------------------ Gaussian tail: Mills-ratio bound *)
+Lemma pdf_lim_p : is_lim pdf p_infty 0.
+Proof.
+  pose proof sqrt2_pos. pose proof sqrt2pi_pos.
+  apply (is_lim_ext (fun z => / sqrt (2 * PI) * gs (/ sqrt 2 * z + 0))).
+  { intros z. unfold pdf, gs.
+    replace (- (/ sqrt 2 * z + 0) ^ 2) with (- (1 / 2) * z ^ 2).
+    2:{ transitivity (- (z ^ 2 / (sqrt 2 * sqrt 2))); [rewrite sqrt_sqrt by lra; field|field; lra]. }
+    unfold Rdiv. ring. }
+  replace (Finite 0) with (Rbar_mult (/ sqrt (2 * PI)) 0) by (simpl; f_equal; ring).
+  apply is_lim_scal_l. apply is_lim_lin_pp; [apply Rinv_0_lt_compat; lra|apply is_lim_gs_p].
+Qed.
+Lemma pdf_lim_m : is_lim pdf m_infty 0.
+Proof.
+  apply (is_lim_ext (fun z => pdf (- z))); [intros z; apply pdf_even|]. apply (is_lim_opp_mp pdf 0 pdf_lim_p).
+Qed.
+
+Definition mills_gap (z : R) : R := pdf z / (- z) - Phi z.
+
+Lemma mills_gap_deriv z : z < 0 -> is_derive mills_gap z (pdf z / z ^ 2).
+Proof.
+  intros Hz. unfold mills_gap. evar_last.
+  apply @is_derive_minus.
+  apply (is_derive_div pdf Ropp z (- z * pdf z) (- 1)). apply pdf_deriv.
+  evar_last. apply @is_derive_opp. apply is_derive_id. reflexivity. lra.
+  apply Phi_deriv.
+  unfold minus, plus, opp; simpl. field. lra.
+Qed.
+
+Lemma mills_gap_incr a z : a < z -> z < 0 -> mills_gap a < mills_gap z.
+Proof.
+  intros Haz Hz.
+  destruct (MVT_cor2 mills_gap (fun c => pdf c / c ^ 2) a z Haz) as (c & Heq & Hc).
+  { intros c Hc. apply is_derive_Reals, mills_gap_deriv. lra. }
+  assert (0 < pdf c / c ^ 2). { apply Rdiv_lt_0_compat; [apply pdf_pos|nra]. }
+  nra.
+Qed.
+
+(* for z < 0:  Phi z <= pdf z / (-z) *)
+Theorem Phi_mills z : z < 0 -> Phi z <= pdf z / (- z).
+Proof.
+  intros Hz. enough (H : - 0 <= mills_gap z) by (unfold mills_gap in H; lra).
+  apply (is_lim_le_loc (fun a => - Phi a) (fun _ => mills_gap z) m_infty (- 0) (mills_gap z)).
+  - exists z. intros a Ha. pose proof (mills_gap_incr a z Ha Hz) as L. unfold mills_gap at 1 in L.
+    assert (0 < pdf a / (- a)). { apply Rdiv_lt_0_compat; [apply pdf_pos|lra]. }
+    lra.
+  - apply (is_lim_opp Phi m_infty 0 Phi_lim_m).
+  - apply is_lim_const.
+Qed.
+
+Lemma zPhi_bounds z : z < 0 -> - pdf z <= z * Phi z <= 0.
+Proof.
+  intros Hz. pose proof (Phi_mills z Hz) as M. destruct (Phi_range z) as [P0 _].
+  apply Rle_div_r in M; [|lra]. nra.
+Qed.
+
+Theorem zPhi_lim_m : is_lim (fun z => z * Phi z) m_infty 0.
+Proof.
+  apply (is_lim_0_bound (fun z => z * Phi z) pdf); [|apply pdf_lim_m].
+  exists 0. intros z Hz. destruct (zPhi_bounds z Hz). apply Rabs_le. lra.
+Qed.
